@@ -270,17 +270,25 @@ func ZZC11Docs() {
 			_ = c11Any().Validate(d)
 		}
 	}
-	// a validation starts from the beginning whatever was read before
-	vo1, vc1, vp1 := errSig(c11Any().Validate(d))
-	vo2, vc2, vp2 := errSig(c11Any().Validate(mk()))
-	v.Assert(vo1 == vo2 && vc1 == vc2 && vp1 == vp2, "C11/document-validation-depends-on-history")
-	f := mk()
-	ok1, c1, p1 := errSig(d.Check())
-	ok2, c2, p2 := errSig(f.Check())
-	v.Assert(ok1 == ok2 && c1 == c2 && p1 == p2, "C11/document-check-depends-on-history")
-	l1, e1 := d.Len()
-	l2, e2 := mk().Len()
-	v.Assert(l1 == l2 && (e1 == nil) == (e2 == nil), "C11/document-len-depends-on-history")
+	// each question is put to the used object directly after the history (a question asked first
+	// would rewind the cursor for the ones after it) and, by default, all of them in a row as well
+	probe := v.Choose(0, 4) // 4: none of them, the lexeme stream only
+	if probe == 0 || probe == 3 {
+		// a validation starts from the beginning whatever was read before
+		vo1, vc1, vp1 := errSig(c11Any().Validate(d))
+		vo2, vc2, vp2 := errSig(c11Any().Validate(mk()))
+		v.Assert(vo1 == vo2 && vc1 == vc2 && vp1 == vp2, "C11/document-validation-depends-on-history")
+	}
+	if probe == 1 || probe == 3 {
+		ok1, c1, p1 := errSig(d.Check())
+		ok2, c2, p2 := errSig(mk().Check())
+		v.Assert(ok1 == ok2 && c1 == c2 && p1 == p2, "C11/document-check-depends-on-history")
+	}
+	if probe == 2 || probe == 3 {
+		l1, e1 := d.Len()
+		l2, e2 := mk().Len()
+		v.Assert(l1 == l2 && (e1 == nil) == (e2 == nil), "C11/document-len-depends-on-history")
+	}
 	// Check and Len leave the cursor where it was: when the history did not read lexemes itself,
 	// the stream read afterwards is that of a fresh document (NextLexeme is a cursor, so after
 	// explicit reads the continuation is not comparable with a fresh object)
